@@ -303,6 +303,9 @@ def c12_units(tier):
         Unit("total-replay-and-readers", HS12, "zzC12_Total", dict(f, nopanics_off=""), bounds="ANY 2 events (any type string, ids, malformed payloads, unparsable timestamps) through replayEvents, listTasks, readyTasks, isBlocked, buildTaskListItems, selectPruneTargets, compactEvents: every nil dereference, index, nil-map write and loop bound is an obligation"),
         Unit("total-tree-line", HSCMD + ["c19.go"], "zzC19_TreeLine", dict(WIDTHFLAGS, only="C12/"), note="display-width abstraction (see C19 tree-line-layout); only the panic obligations count here",
              bounds="formatTreeLine (the row renderer of the human list) for ANY text widths and terminal width 0..400: strings.Repeat with a negative count, index and nil obligations"),
+        Unit("legacy-heading-total", HS12, "zzC12_LegacyHeadingTotal", {"loop": 16, "rec": 4, "stubs": "strings.TrimSpace=zzTrimSpaceASCII,strings.TrimPrefix=zzTrimPrefixBytes,strings.IndexFunc=zzIndexFuncASCII"},
+             note="byte mode; library strings.TrimSpace / TrimPrefix / IndexFunc replaced by byte-level ports (harness/c12.go); the rest of deriveTitleAndBodyFromLegacy (Split / Join) stays summarised by uninterpreted functions in the replay units",
+             bounds="isLegacyHeading (run by every replay on each line of the body of an item with a blank title) on ANY line of <=4 ASCII bytes: no index / slice panic, loop bound checked, and a line not starting with '#' is not a heading"),
         Unit("epics-order-deterministic", HS12, "zzC12_EpicOrder", f, bounds="two epics with arbitrary creation times given to sortByCreatedAt in both orders"),
         Unit("pure-list", HS12, "zzC12_PureList", f, bounds="list --json with every flag combination on the file model"),
         Unit("pure-show", HS12, "zzC12_PureShow", fshow, note="CUT: collectEpicChildren (display) summarised", bounds="show --json <any id>"),
